@@ -5,7 +5,8 @@ proof  : Props/C01.lean — `valid_sound` (any semantics, any program, any emiss
          unrequested constructions, choice of emission).
 tie H  : translation validation of the REAL output on every run: each generated abstract program is
          written in several Python styles with the real constructors, built by `spox.build`, the
-         nested emission is read back from the ModelProto (lib_prog.extract_emission) and the driver
+         nested emission is read back from the ModelProto alone (lib_prog.extract_emission: the
+         NodeProto <-> program-node correspondence is derived by demand from the results) and the driver
          runs the Lean `wfCheck`, `validG` on it, and `evalG` (on the emission) against `denoteG` (on
          the program) under a discriminating integer semantics.
 oracle : model-free: the built model runs under onnxruntime (optimisations off; onnx.reference as a
@@ -48,6 +49,9 @@ def run_case(prog, style: str, rseed: int, bindings, specs=None, use_reference=F
     rng = random.Random(rseed)
     try:
         R = L.realise(prog, rng, style)
+    except L.HarnessError as e:
+        out["problems"] = [f"harness: {e}"]
+        return out
     except Exception as e:  # noqa: BLE001 - any exception from a constructor on a well-typed program
         out["fail"] = (classify_raise(prog, "construct", e), f"constructor raised {type(e).__name__}: {str(e)[:200]}")
         return out
@@ -59,7 +63,7 @@ def run_case(prog, style: str, rseed: int, bindings, specs=None, use_reference=F
         return out
     out["model"] = model
     try:
-        em, problems = L.extract_emission(prog, R, model, log)
+        em, problems = L.extract_emission(prog, model)
     except Exception as e:  # noqa: BLE001 - extraction trouble is a broken tie, never a verdict
         em, problems = None, [f"extraction crashed: {type(e).__name__}: {e}"]
     out["emission"], out["problems"] = em, problems
@@ -204,7 +208,14 @@ def run(ck: core.Check):
         skey = struct_key(prog)
         for style in styles:
             rseed = rng.getrandbits(32)
-            res = run_case(prog, style, rseed, bindings, specs, use_reference=(stats["builds"] % 12 == 0))
+            try:
+                res = run_case(prog, style, rseed, bindings, specs, use_reference=(stats["builds"] % 12 == 0))
+            except Exception as e:  # noqa: BLE001 - harness trouble on one case never ends the run
+                stats["harness_errors"] += 1
+                if stats["harness_errors"] <= 3:
+                    ck.broken("correspondence", "C01 harness could not process a case",
+                              f"{origin} style={style} rseed={rseed}: {type(e).__name__}: {e}")
+                continue
             stats["builds"] += 1
             hist_style[style] += 1
             stats["bindings_compared"] += res["compared"]
@@ -228,6 +239,10 @@ def run(ck: core.Check):
                 stats["oracle_failures"] += 1
             R = res["realised"]
             if res["model"] is None:
+                if res["problems"] and not res["fail"]:
+                    extraction_broken += 1
+                    if extraction_broken <= 3:
+                        ck.broken("correspondence", "C01 program could not be realised by the harness", str(res["problems"][:2]))
                 continue
             if res["problems"] or res["emission"] is None:
                 extraction_broken += 1
@@ -253,8 +268,16 @@ def run(ck: core.Check):
                 stats["created_inside_callbacks"] += sum(1 for k, dd in R.created_in.items() if dd > 0 and prog["nodes"][k]["op"] != "arg")
             nm = len(L.main_args(prog))
             vals = [[rng.randrange(P) for _ in range(nm)] for _ in range(2)]
-            lean_reqs.append(L.lean_request(prog, em, vals, rng.randrange(1, 1000)))
-            lean_meta.append((pi, style, rseed, origin))
+            sd = rng.randrange(1, 1000)
+            # the program as it was really created: nodes numbered by actual Python creation order
+            # (so wfCheck judges "creation order is a topological numbering" on the real run)
+            margs = L.main_args(prog)
+            prog_c, idmap = L.renumber(prog, R.created)
+            lean_reqs.append(L.lean_request(prog_c, L.rename_emission(em, idmap), vals, sd, [idmap[a] for a in margs]))
+            lean_meta.append((pi, style, rseed, origin, "creation-order"))
+            if stats["builds"] % 4 == 0:  # and in the abstract numbering: same values (renaming theorem)
+                lean_reqs.append(L.lean_request(prog, em, vals, sd))
+                lean_meta.append((pi, style, rseed, origin, "abstract-order"))
             if pi % 97 == 0 and style == styles[0]:
                 ck.sample({"origin": origin, "style": style, "nodes": len(prog["nodes"]), "depth": d,
                            "ops": sorted(set(n["op"] for n in prog["nodes"])),
@@ -269,6 +292,7 @@ def run(ck: core.Check):
         outs = []
     if outs and len(outs) != len(lean_reqs):
         ck.broken("correspondence", "C01 driver", f"{len(outs)} answers for {len(lean_reqs)} requests")
+    prev = None
     for o, meta, req in zip(outs, lean_meta, lean_reqs):
         tag = None
         if "error" in o:
@@ -285,11 +309,22 @@ def run(ck: core.Check):
                 ck.broken("correspondence", f"C01 translation validation: {tag}",
                           f"program #{meta[0]} ({meta[3]}) style={meta[1]} rseed={meta[2]} answer={json.dumps(o)[:300]} emission={json.dumps(req['emit'])[:400]}")
         else:
-            stats["emissions_validated"] += 1
+            stats["emissions_validated"] += int(meta[4] == "creation-order")
             stats["eval_vs_denote_compared"] += int(req["denote"])
+            if meta[4] == "abstract-order" and prev is not None and prev[1][:4] == meta[:4]:
+                stats["numberings_compared"] += 1
+                if [r["eval"] for r in prev[0]["runs"]] != [r["eval"] for r in o["runs"]]:
+                    mism["creation-order-vs-abstract-order-values-differ"] += 1
+                    ck.broken("correspondence", "C01 renaming: values differ between creation-order and abstract numbering",
+                              f"program #{meta[0]} style={meta[1]} rseed={meta[2]}")
+        prev = (o, meta)
 
     # --- the listed finding, replayed on every run
-    kf = run_case(LOOP_SCALAR_COND, "lazy", 1, [L.random_binding(LOOP_SCALAR_COND, random.Random(5))])
+    try:
+        kf = run_case(LOOP_SCALAR_COND, "lazy", 1, [L.random_binding(LOOP_SCALAR_COND, random.Random(5))])
+    except Exception as e:  # noqa: BLE001
+        kf = {"fail": None}
+        ck.broken("correspondence", "C01 harness could not process the loop-scalar-cond probe", f"{type(e).__name__}: {e}")
     stats["builds"] += 1
     if kf["fail"]:
         ck.failure(kf["fail"][0], kf["fail"][1] + " [fixed probe: Loop with a rank-0 initial condition]",
@@ -303,6 +338,7 @@ def run(ck: core.Check):
             "realisations_built": stats["builds"],
             "emissions_validated_by_lean": stats["emissions_validated"],
             "evalG_vs_denoteG_compared": stats["eval_vs_denote_compared"],
+            "creation_order_vs_abstract_numbering_compared": stats["numberings_compared"],
             "translation_validation_mismatches": dict(mism),
             "extraction_problems": extraction_broken,
             "bindings_compared_with_numpy": stats["bindings_compared"],
